@@ -122,6 +122,8 @@ def check_corruptions(kind, header, blocks, parse, err):
                 corrupt.append((i, 'field: note = lambda: 1', 'invalid field expression'))
             if l.startswith('priority:'):
                 corrupt.append((i, 'priority: high', 'malformed priority'))
+                for bad in ('7.9', '10.0', '1e2', 'inf', '-3.5', '', '5 5', '0x10'):
+                    corrupt.append((i, 'priority: ' + bad, 'malformed priority'))
             if l.startswith('big ='):
                 corrupt.append((i, 'big = import os', 'invalid variable expression'))
                 corrupt.append((i, 'big = (', 'invalid variable expression'))
